@@ -3,6 +3,7 @@ import ast, os, time, warnings
 import numpy as np
 import vlib
 from vlib import cz, czl, tolq
+from props._loopir import loopir_tie, TRUSTED_LINE
 
 LEVEL_TEXT = ("Coq theorems (abstract field with conjugation, ordered where an order clause is stated; every N, P, Q, lag, NFFT) about the "
               "model of ma / arma_estimate / arma2psd and the six AR/MA/ARMA class pipelines: exactly P and Q coefficients; the exact "
@@ -18,7 +19,10 @@ LEVEL_TEXT = ("Coq theorems (abstract field with conjugation, ordered where an o
               "grids NFFT in {1,2,4}, a fail-closed AST extraction of the six __call__ bodies, and a property-directed search on the "
               "implementation with independent oracles.")
 TRUSTED = ["Coq 8.16.1 kernel + vm_compute",
-           "hand-written model coq/Model/ArmaEst.v (tie = correspondence run + AST extraction of the class pipelines)",
+           "hand-written model coq/Model/ArmaEst.v (tie = correspondence run + AST extraction of the class pipelines); ma (Model/MaEst.v) is in addition under "
+           "the loop-IR tie: its IR program - the two aryule fits with CORRELATION and LEVINSON embedded - is regenerated from arma.py / yulewalker.py / "
+           "correlation.py / levinson.py on every run and evaluated exactly (QcC, zero tolerance) against Model.MaEst.ma_est on sampled inputs, every error branch included",
+           TRUSTED_LINE,
            "arcovar_marple / arcovar (scipy lstsq) enter the model as oracles that satisfy the normal equations of the covariance "
            "method; the correspondence run instantiates them with exact elimination on the normal equations and checks, inside Coq "
            "and with zero tolerance, that this instance meets the hypothesis on every exact case",
@@ -531,6 +535,8 @@ def run(ctx):
     def lap(name):
         timing[name] = round(time.time() - t0[0], 1); t0[0] = time.time()
     ctx.check_theorems('Properties/C15.v')
+    # the IR program of ma, regenerated from arma.py with aryule / CORRELATION / LEVINSON embedded, vs Model.MaEst.ma_est: exact, zero tolerance
+    loopir_tie(ctx, ['ma'])
     check_pipelines(ctx)
     lap('theorems+pipelines')
 
